@@ -9,6 +9,8 @@
 package remux
 
 import (
+	"bytes"
+
 	"github.com/q191201771/lal/pkg/base"
 )
 
@@ -64,6 +66,10 @@ type GopCache struct {
 	gopRingLast          int
 	gopSize              int
 	singleGopMaxFrameNum int
+
+	// 最近一次seq header的内容，用于判断seq header是否发生了变化
+	videoSeqHeaderPayload []byte
+	aacSeqHeaderPayload   []byte
 }
 
 // NewGopCache
@@ -105,12 +111,14 @@ func (gc *GopCache) Feed(msg base.RtmpMsg, b []byte) bool {
 		return true
 	case base.RtmpTypeIdAudio:
 		if msg.IsAacSeqHeader() {
+			gc.clearGopIfSeqHeaderChanged(&gc.aacSeqHeaderPayload, msg.Payload)
 			gc.AacSeqHeader = b
 			Log.Debugf("[%s] cache %s aac seq header. size:%d", gc.uniqueKey, gc.t, len(gc.AacSeqHeader))
 			return true
 		}
 	case base.RtmpTypeIdVideo:
 		if msg.IsVideoKeySeqHeader() {
+			gc.clearGopIfSeqHeaderChanged(&gc.videoSeqHeaderPayload, msg.Payload)
 			gc.VideoSeqHeader = b
 			Log.Debugf("[%s] cache %s video seq header. size:%d", gc.uniqueKey, gc.t, len(gc.VideoSeqHeader))
 			return true
@@ -144,8 +152,22 @@ func (gc *GopCache) Clear() {
 	gc.MetadataEnsureWithoutSetDataFrame = nil
 	gc.VideoSeqHeader = nil
 	gc.AacSeqHeader = nil
+	gc.videoSeqHeaderPayload = nil
+	gc.aacSeqHeaderPayload = nil
 	gc.gopRingLast = 0
 	gc.gopRingFirst = 0
+}
+
+// clearGopIfSeqHeaderChanged
+//
+// 流中途seq header的内容发生变化时，之前缓存的GOP是用旧的seq header编码的，新加入的sub只会收到新的seq header，
+// 无法解码旧的GOP，所以将旧的GOP清空。内容相同的seq header重复发送时不受影响。
+func (gc *GopCache) clearGopIfSeqHeaderChanged(prev *[]byte, payload []byte) {
+	if *prev != nil && !bytes.Equal(*prev, payload) {
+		gc.gopRingLast = 0
+		gc.gopRingFirst = 0
+	}
+	*prev = append((*prev)[:0], payload...)
 }
 
 // ---------------------------------------------------------------------------------------------------------------------
